@@ -32,7 +32,7 @@ Hdr(e, rev) ==
 \* variations of everything that is not the identity
 Variants(h) ==
   {[link |-> l, cut |-> 0, h |-> WithOpts([h EXCEPT !.flags = f, !.payload = Pay(p), !.ttl = t, !.ipid = t * 7, !.win = 1000 + t, !.seq = <<t, 1, 2, 3>>, !.tos = t % 4], IF o THEN OptArea(Std) ELSE <<>>)] :
-      l \in {"eth", "raw"}, f \in {SYN, ACK, PSH + ACK, FIN + ACK, RST}, p \in {0, 1, 40}, t \in {1, 64, 255}, o \in BOOLEAN}
+      l \in {"eth", "raw", "null"}, f \in {SYN, ACK, PSH + ACK, FIN + ACK, RST}, p \in {0, 1, 40}, t \in {1, 64, 255}, o \in BOOLEAN}
   \cup (IF h.ver = 4 THEN {[link |-> "eth", cut |-> 0, h |-> [h EXCEPT !.ihl = i, !.payload = Pay(p)]] : i \in 0..15, p \in {0, 33}} ELSE {})
   \cup {[link |-> "eth", cut |-> c, h |-> [h EXCEPT !.payload = Pay(40)]] : c \in {1, 17, 40}}               \* truncated payload, TCP header intact
 
